@@ -14,7 +14,8 @@ def run(ctx):
 
 def r1(ctx):
     import os
-    for m in ("Transfer", "Grouping"):
-        if os.path.exists(os.path.join(tlc.SPEC, m + ".cfg")):
-            r = tlc.must_pass(tlc.run(m, m + ".cfg", workers=16, timeout=1200, coverage=True), m)
-            ctx.add_tlc(r, "R1")
+    for m, cfg in (("Transfer", "Transfer_full.cfg" if ctx.tier == "thorough" else "Transfer.cfg"), ("Grouping", "Grouping.cfg")):
+        r = tlc.must_pass(tlc.run(m, cfg, workers=16, timeout=2400, coverage=True), m)
+        if r.coverage_zero():
+            raise RuntimeError("vacuous %s run: %s" % (m, r.coverage_zero()))
+        ctx.add_tlc(r, "R1")
